@@ -147,9 +147,9 @@ def parse_type(s):
     return (head.strip(),) + tuple(parse_type(p) for p in parts)
 
 
-ISEQ_KINDS = {"bytes", "bytearray", "str", "ilist", "ituple"}
+ISEQ_KINDS = {"bytes", "bytearray", "str", "ilist", "ituple", "clist"}   # clist: a list of one-character strings
 _BOX = {"bytes": ("VBy", "byval"), "bytearray": ("VBy", "byval"), "str": ("VStr", "strval"),
-        "ilist": ("VIL", "ilval"), "ituple": ("VIL", "ilval")}
+        "ilist": ("VIL", "ilval"), "ituple": ("VIL", "ilval"), "clist": ("VIL", "ilval")}
 
 
 def mk_iseq_lit(pyval, kind):
@@ -304,7 +304,7 @@ def wt(t, ty):
         return [Val.is_VBy(t), is_bytes_fact(Val.byval(t))]
     if ty == "str":
         return [Val.is_VStr(t), is_chars_fact(Val.strval(t))]
-    if ty in ("ilist", "ituple"):
+    if ty in ("ilist", "ituple", "clist"):
         return [Val.is_VIL(t)]
     if ty == "none":
         return [Val.is_VN(t)]
@@ -360,6 +360,9 @@ def sym_value(name, ty):
         return VSeq(t, ty), [is_chars_fact(t)]
     if ty in ("ilist", "ituple"):
         return VSeq(fresh(name, smt.ISq), ty), []
+    if ty == "clist":
+        t = fresh(name, smt.ISq)
+        return VSeq(t, ty), [is_chars_fact(t)]
     if ty == "none":
         return VNone(), []
     if ty == "any":
